@@ -3,7 +3,7 @@ import copy
 import math
 
 import datagen as dg
-from common import Prop, bits, unbits, close, import_mtfit, main
+from common import Prop, bits, unbits, close, import_mtfit, main, Failure
 from c02 import unit6
 
 NEG_INF = float('-inf')
@@ -490,6 +490,66 @@ class C15(Prop):
         used = [n for n in ns if n >= case['min_int'] and n > 0]
         return 'E%d/%s/%s/%s' % (len(case['events']), 'rel' if case['relative'] else 'norel',
                                  'pairs-used' if used and case['relative'] else 'no-pairs', 'rz' if case['return_zero'] else 'filter')
+
+    # ------------------------------------------------------------------ a joint task object that is re-used for a sequence of tuples (Markov-chain driver)
+    def _reuse_history(self, seed, ne):
+        import contextlib
+        import io as _io
+        np = self.np
+        from MTfit import inversion as inv
+        n = 5
+        evs = []
+        for e in range(ne):
+            r = np.random.RandomState(seed * 10 + e)
+            st = {'Name': ['S%d' % i for i in range(n)], 'Azimuth': np.matrix(r.uniform(0, 360, n)).T, 'TakeOffAngle': np.matrix(r.uniform(20, 160, n)).T}
+            m = r.randn(6)
+            m /= np.linalg.norm(m)
+            a = np.asarray(inv.station_angles(st, 'P'))
+            data = {'PPolarity': {'Stations': st, 'Measured': np.matrix(np.sign(a.dot(m))).T, 'Error': np.matrix(0.05 * np.ones((n, 1)))}}
+            evs.append((inv.polarity_matrix(data), m))
+        a_pol, err, ipp = [e[0][0] for e in evs], [e[0][1] for e in evs], [e[0][2] for e in evs]
+        F = [False] * ne
+        emp3, emp1 = [np.zeros((0, 1, 6))] * ne, [np.zeros((0,))] * ne
+
+        def make(reuse):
+            return inv.MultipleEventsForwardTask([np.zeros((6, 1))] * ne, a_pol, err, F, F, F, F, F, F, F, emp3, emp1, emp1, [[] for _ in range(ne)], False, ipp, 2,
+                                                 return_zero=True, reuse=reuse, relative=False, combine=True)
+
+        def run(task, mts):
+            task.mts = [np.array(np.matrix(m).T, dtype=float) for m in mts]
+            with contextlib.redirect_stdout(_io.StringIO()):
+                r = task()
+            lp = r['ln_pdf']
+            return [float(v) for v in np.asarray(lp._ln_pdf if hasattr(lp, '_ln_pdf') else lp, dtype=float).flatten()]
+        true = [e[1] for e in evs]
+        rs = np.random.RandomState(seed)
+        tuples = []
+        bad_event = 0 if seed % 2 == 1 else seed % ne
+        tuples.append([(-m if i == bad_event else m) for i, m in enumerate(true)])       # first tuple: impossible for one event
+        tuples.append(list(true))
+        tuples.append([true[0]] * ne)                                                      # every event gets the source that fits event 0
+        for _t in range(3):
+            tuples.append([(m + 0.2 * rs.randn(6)) for m in true])
+        t = make(True)
+        out = []
+        for k_, tp in enumerate(tuples):
+            tp = [m / np.linalg.norm(m) for m in tp]
+            out.append({'call': k_, 'reused': run(t, tp), 'fresh': run(make(False), tp)})
+        return out
+
+    def extra(self, rng, tier):
+        runs, fails = [], []
+        for seed, ne in ([(41, 2), (42, 3)] if tier == 'quick' else [(41, 2), (42, 3), (43, 2), (44, 3), (45, 4)]):
+            hist = self._reuse_history(seed, ne)
+            runs.append({'seed': seed, 'events': ne, 'calls': len(hist)})
+            for h in hist:
+                same = len(h['reused']) == len(h['fresh']) and all((a_ == b_) or close(a_, b_, atol=1e-9) for a_, b_ in zip(h['reused'], h['fresh']))
+                if not same:
+                    fails.append(Failure('property', {'kind': 'reuse-history', 'seed': seed, 'events': ne},
+                                         'a joint forward task re-used for a sequence of tuples (%d events; the first tuple is impossible for one event) gives %r at call %d, a fresh task on the '
+                                         'same tuple %r: the events are no longer evaluated with their own data' % (ne, h['reused'], h['call'], h['fresh']), key='reuse-history'))
+                    break
+        return {'reuse_histories': runs}, fails
 
 
 if __name__ == '__main__':
